@@ -42,7 +42,7 @@ STEPS = [
 ]
 PROBE = "P0: mov #{V}, P1\nP1: .word P0, und3f + 1\n.byte {V}\nbr P0\n"   # an error program: diagnostics with positions are compared too
 PROBE_OK = "P0: mov #{V}, P1\nP1: .word P0, P1 - P0\nlater = P1 + {V}\n.word later\nbr P0\n"
-HISTORY = [s for s in STEPS if s[0] in ("valid", "range-error", "parse-critical", "cycle", "undefined", "recursive-link", "cycle-size")]
+HISTORY = [s for s in STEPS if s[0] in ("valid", "range-error", "parse-critical", "branch-error", "undefined", "recursive-link", "cycle-size")]
 
 
 def module_state():
@@ -55,6 +55,8 @@ def snapshot(o):
 
 
 def h_step(params, vals, ctx):
+    if params.get("vmax") is not None:
+        require(-params["vmax"] <= vals["V"] <= params["vmax"])  # the message renders the value with str()
     reset_module_state()
     o = assemble([("/w/s.mac", params["text"])], vals, route=ctx.route, reset=False)
     ctx.observe_outcome(o)
@@ -99,6 +101,7 @@ def h_history(params, vals, ctx):
     i, j = vals["I"], vals["J"]
     require(0 <= i < len(HISTORY) and 0 <= j < len(HISTORY))
     require(-300 < vals["V"] < 300)
+    require(-8 <= vals["W"] <= 8)
     i, j = concretize(i), concretize(j)
     reset_module_state()
     fresh = assemble([("/w/p.mac", params["probe"])], vals, route=ctx.route, reset=False)
@@ -126,7 +129,7 @@ def h_twice(params, vals, ctx):
 def obligations(tier, seed):
     obs = []
     for name, text in STEPS:
-        obs.append(Ob(oid=f"step/{name}", harness=P + "h_step", params={"text": text}, vars={"V": "int"}, timeout=300, per_path=90,
+        obs.append(Ob(oid=f"step/{name}", harness=P + "h_step", params={"text": text, "vmax": 8 if name == "recursive-link" else None}, vars={"V": "int"}, timeout=300, per_path=90,
                       note=text.replace("\n", " / "), pre="every integer V"))
     for name, text in (("error-probe", PROBE), ("ok-probe", PROBE_OK)):
         obs.append(Ob(oid=f"instance-id/{name}", harness=P + "h_instance_id", params={"text": text}, vars={"N": "int", "V": "int"}, timeout=300,
